@@ -25,7 +25,7 @@ pub fn def() -> PropDef {
     PropDef {
         id: "C16",
         level: "model_checking",
-        rule: "explicit-state search over a store holding 5 documents — three whose namespace ids are byte-order neighbours (..FE, ..FF, successor; populated through the raw-put hook with read-only capability) and two real-key documents — with events {write entry 1/2, delete prefix, register peer, set policy, open, close, remove, re-create, import the write capability (an upgrade for a document created read-only)} per document, from the empty and from a fully populated initial state; after every event every document's complete observable content is compared with a per-document reference, removal must be refused iff open, and content_hashes() must equal the hashes of all entries held; a family drives the document life cycle through the docs API of a real Engine (every history of <= 3, thorough 4, events over {write, delete prefix, set policy, open one more handle, close, drop_doc, import again}: a dropped document is not listed, cannot be opened, comes back empty with the default policy, the bystander document is untouched); a further family spawns a real Engine with a garbage-collection protect handler and, after every step of three scripts (0..N writes, prefix deletions, duplicate contents, removals; N = 140 quick / 600 thorough, crossing every channel capacity on the way), calls the collector's callback and requires the live set it receives to equal the hashes held, and once more after the docs engine was shut down (the collector must then be stopped, not handed a smaller set); canonical state = rendering of the complete observable store content; non-trivial = histories containing a removal of a non-empty document",
+        rule: "explicit-state search over a store holding 5 documents — three whose namespace ids are byte-order neighbours (..FE, ..FF, successor; populated through the raw-put hook with read-only capability) and two real-key documents — with events {write entry 1/2, delete prefix, register peer, set policy, open, close, remove, re-create, import the write capability (an upgrade for a document created read-only)} per document, from the empty and from a fully populated initial state; after every event every document's complete observable content is compared with a per-document reference, removal must be refused iff open, and content_hashes() must equal the hashes of all entries held; a family drives the document life cycle through the docs API of a real Engine (every history of <= 3, thorough 4, events over {write, delete prefix, set policy, open one more handle, close, drop_doc, import again}: a dropped document is not listed, cannot be opened, comes back empty with the default policy, the bystander document is untouched); a further family spawns a real Engine with a garbage-collection protect handler and, after every step of three scripts (0..N writes, prefix deletions, duplicate contents, removals; N = 140 quick / 600 thorough, crossing every channel capacity on the way), calls the collector's callback and requires the live set it receives to equal the hashes held, and once more after the docs engine was shut down (the collector must then be stopped, not handed a smaller set); one case per neighbour-id document: it holds 1102 entries by 13 authors, is removed and re-created between its byte-order neighbours; canonical state = rendering of the complete observable store content; non-trivial = histories containing a removal of a non-empty document",
         assumptions: &["entries of the neighbouring-id documents carry arbitrary signatures (written below the validation layer), which the properties observed here never inspect"],
         bound: |t| match t {
             Tier::Quick => json!({"from_empty": "depth <= 3", "from_populated": "depth <= 4", "events": 43}),
@@ -691,8 +691,99 @@ fn gc_run(name: &str, script: &[GcStep], report: &mut Report, ordinal: u64) -> (
     (checks, largest)
 }
 
+/// A big document between its byte-order neighbours: document `victim` (one of the three
+/// neighbour-id documents) holds 1100 entries by 11 authors (among them the all-zero and the
+/// all-0xFF author id); it is removed, looked at, re-created and looked at again.
+fn big_removal(victim: usize) -> Vec<(&'static str, String)> {
+    set_clock(NOW);
+    iroh_docs::verif::set_clock_nanos(Some(5_000_000));
+    let mut bad = vec![];
+    let mut sut = Sut::memory();
+    for d in 0..3 {
+        sut.store.import_namespace(capability(d)).expect("import");
+        for which in 0..2 {
+            iroh_docs::verif::raw_entry_put(&mut sut.store, doc_id(d), entry(d, which)).expect("raw put");
+        }
+        sut.store.register_useful_peer(doc_id(d), the_peer(d)).expect("peer");
+        sut.store.set_download_policy(&doc_id(d), the_policy(d)).expect("policy");
+    }
+    let mut victim_hashes = BTreeSet::new();
+    for a in 0..11u8 {
+        let author_bytes = if a == 10 { [0xffu8; 32] } else { [a.wrapping_mul(0x19); 32] };
+        for k in 0..100u32 {
+            let mut id = doc_id(victim).to_bytes().to_vec();
+            id.extend_from_slice(&author_bytes);
+            id.extend_from_slice(format!("k{k:03}").as_bytes());
+            let hash = *blake3::hash(&[a, (k >> 8) as u8, k as u8]).as_bytes();
+            victim_hashes.insert(hash);
+            let e = RawSigned { author_sig: [7; 64], ns_sig: [0x99; 64], id, len: 3, hash, ts: T0 + 1 + (k % 5) as u64 }.to_signed().expect("decodes");
+            iroh_docs::verif::raw_entry_put(&mut sut.store, doc_id(victim), e).expect("raw put");
+        }
+    }
+    let before: Vec<DocObs> = (0..3).map(|d| observe(&mut sut, d)).collect();
+    if before[victim].dump.len() != 1102 {
+        bad.push(("MACHINERY", format!("the big document holds {} entries, expected 1102", before[victim].dump.len())));
+        return bad;
+    }
+    let hashes = |sut: &mut Sut| -> BTreeSet<[u8; 32]> { sut.store.content_hashes().expect("content_hashes").map(|h| *h.expect("hash").as_bytes()).collect() };
+    let want_hashes = |obs: &[&DocObs]| -> BTreeSet<[u8; 32]> { obs.iter().flat_map(|o| o.dump.iter().map(|e| *e.content_hash().as_bytes())).collect() };
+    if hashes(&mut sut) != want_hashes(&before.iter().collect::<Vec<_>>()) {
+        bad.push(("content_hashes_equal_held_entries", "before the removal of the big document".to_string()));
+    }
+    if let Err(e) = sut.store.remove_replica(&doc_id(victim)) {
+        bad.push(("remove_succeeds_when_closed", format!("big document {victim}: {e:#}")));
+    }
+    let gone = DocObs { listed: None, dump: vec![], by_key: vec![], heads: vec![], peers: None, policy: Default::default() };
+    for stage in ["removed", "re-created"] {
+        if stage == "re-created" {
+            sut.store.import_namespace(capability(victim)).expect("import");
+        }
+        for d in 0..3 {
+            let now = observe(&mut sut, d);
+            if d == victim {
+                let mut want = gone.clone();
+                if stage == "re-created" {
+                    want.listed = Some(CapabilityKind2::Read);
+                }
+                if now != want {
+                    bad.push(("removed_document_is_unobservable", format!("big document {victim} ({stage}): {} entries, {} by-key rows, {} heads, peers {:?}, listed {:?} are still observable", now.dump.len(), now.by_key.len(), now.heads.len(), now.peers.as_ref().map(|p| p.len()), now.listed)));
+                }
+            } else if now != before[d] {
+                bad.push(("other_documents_untouched", format!("big document {victim} {stage}: neighbour document {d} changed ({} -> {} entries, {} -> {} heads)", before[d].dump.len(), now.dump.len(), before[d].heads.len(), now.heads.len())));
+            }
+        }
+        let others: Vec<&DocObs> = (0..3).filter(|d| *d != victim).map(|d| &before[d]).collect();
+        if hashes(&mut sut) != want_hashes(&others) {
+            bad.push(("content_hashes_equal_held_entries", format!("big document {victim} {stage}")));
+        }
+    }
+    iroh_docs::verif::set_clock_nanos(None);
+    bad
+}
+
 fn run(ctx: &Ctx, report: &mut Report) {
     crate::util::silence_panics();
+    for victim in 0..3usize {
+        if ctx.shard != (7 + victim as u64) % ctx.of {
+            continue;
+        }
+        report.evaluations += 1;
+        report.nontrivial += 1;
+        report.count("big_removals", 1);
+        let case = json!({"big_removal": victim});
+        match catch(|| big_removal(victim)) {
+            Err(p) => report.violation("no_panic", json!({"big": true}), case, format!("panic: {p}"), 0),
+            Ok(bad) => {
+                for (o, d) in bad {
+                    if o == "MACHINERY" {
+                        report.machinery_error(d);
+                    } else {
+                        report.violation(o, json!({"big": true}), case.clone(), d, 0);
+                    }
+                }
+            }
+        }
+    }
     super::apifam::run_life_family(ctx, report, "C16");
     let evs = events();
     report.fact("events", json!(evs.len()));
@@ -773,6 +864,15 @@ fn run(ctx: &Ctx, report: &mut Report) {
 }
 
 fn replay(case: &Value) -> anyhow::Result<(bool, String)> {
+    if let Some(v) = case.get("big_removal").and_then(|v| v.as_u64()) {
+        return match catch(|| big_removal(v as usize)) {
+            Err(p) => Ok((true, format!("panic: {p}"))),
+            Ok(bad) => {
+                let out: String = bad.iter().map(|(o, d)| format!("FAILED {o}: {d}\n")).collect();
+                Ok((!bad.is_empty(), format!("removal of big document {v}\n{out}")))
+            }
+        };
+    }
     if let Some(r) = super::apifam::replay_life(case, "C16")? {
         return Ok(r);
     }
